@@ -231,7 +231,7 @@ def r4_flags(ctx, f, rep, eff):
     is_push = lambda res: res.endswith('Vec::<member::Member<T>>::push') or strip_generics(res) == 'alloc::vec::Vec::push'
     regs = []
     for c in [parent] + list(f.closures_of('member::Members::apply')):
-        if any(is_push(t['res']) for _, t in f.calls(c)):
+        if any(is_push(t['res']) for _, t in f.calls_deep(c)):
             regs.append(c)
     if not regs:
         rep.anchor_missing('C08-R4', 'registration code (push of the new record) of Members::apply')
@@ -249,6 +249,7 @@ def r4_flags(ctx, f, rep, eff):
             act = [c for c in p.conds() if c['expr'] == ian]
             an = q.cond_truth(act[-1]) if act else None
             naw = [w for w in p.writes() if w['place'] == q.self_field('num_active') or
+                   q.field_path(w['place'])[1][-1:] == ['num_active'] or
                    (w['place'][0] == 'deref' and (q.upvar_of(reg, w['place'][1]) or '').endswith('num_active'))]
             if an is True:
                 good = good and len(naw) == 1 and naw[0]['value'][0] == 'call' and \
